@@ -6,6 +6,7 @@ package policy
 // is rejected and nothing of it is applied.  Every refusal is logged for the harness to inspect.
 
 import (
+	"net"
 	"bytes"
 	"fmt"
 	"strings"
@@ -273,13 +274,27 @@ func (s *vStrictIPSet) CreateSet(set *ipset.IPSet, ignore bool) error {
 	defer s.mu.Unlock()
 	return s.FakeIPSet.CreateSet(set, ignore)
 }
+// vCanonNet: the kernel stores (and lists) a hash:net element as its network address, without a /32 suffix.
+func vCanonNet(e string) string {
+	if !strings.Contains(e, "/") {
+		return e
+	}
+	_, ipnet, err := net.ParseCIDR(e)
+	if err != nil {
+		return e
+	}
+	return strings.TrimSuffix(ipnet.String(), "/32")
+}
+
 func (s *vStrictIPSet) AddEntryWithOptions(e *ipset.Entry, set *ipset.IPSet, ignore bool) error {
 	s.mu.Lock()
 	defer s.mu.Unlock()
 	if _, ok := s.FakeIPSet.Sets[set.Name]; !ok {
 		return fmt.Errorf("ipset add: the set %s does not exist", set.Name)
 	}
-	return s.FakeIPSet.AddEntryWithOptions(e, set, ignore)
+	c := *e
+	c.Net = vCanonNet(e.Net)
+	return s.FakeIPSet.AddEntryWithOptions(&c, set, ignore)
 }
 func (s *vStrictIPSet) DelEntryWithOptions(set, entry string, options ...string) error {
 	s.mu.Lock()
@@ -287,7 +302,7 @@ func (s *vStrictIPSet) DelEntryWithOptions(set, entry string, options ...string)
 	if _, ok := s.FakeIPSet.Sets[set]; !ok {
 		return fmt.Errorf("ipset del: the set %s does not exist", set)
 	}
-	return s.FakeIPSet.DelEntryWithOptions(set, entry, options...)
+	return s.FakeIPSet.DelEntryWithOptions(set, vCanonNet(entry), options...)
 }
 func (s *vStrictIPSet) ListEntries(set string) ([]string, error) {
 	s.mu.Lock()
